@@ -167,7 +167,7 @@ func groupFailedInLog(t *Trace, c *spec.Checks) bool {
 			}
 			run++
 			switch inv.Out {
-			case plug.Permanent, plug.WrongType, plug.WrongTypeErr:
+			case plug.Permanent, plug.WrongType, plug.WrongTypeErr, plug.WrongPtr:
 				return true
 			case plug.OK:
 				run = 0
